@@ -252,6 +252,18 @@ def run_bounded(res, repo, spec, seed, tier):
     res.bounded.append({'what': 'bounded stand-in (native evaluation of an assumed contract)', 'function': out.get('function'),
                         'tool': 'native run-time contract check under /venv/bin/python', 'bound': out.get('bound'),
                         'evaluations': out.get('evaluations'), 'failures': out.get('failures')})
+    kf = [f for f in D.load_known_findings().get('findings', []) if f['property'] == res.pid and f.get('bounded') == spec.split(':')[-1]]
+    fresh = []
+    for fl in out.get('failures') or []:
+        hit = [k for k in kf if k.get('detail_contains') and k['detail_contains'] in fl.get('detail', '')]
+        if hit:
+            line = 'KNOWN-FINDING: property=%s %s' % (res.pid, hit[0]['what'])
+            if line not in res.known:
+                res.known.append(line)
+            res.excluded_by_known.append('bounded:%s:%s' % (spec.split(':')[-1], hit[0]['detail_contains']))
+        else:
+            fresh.append(fl)
+    out['failures'] = fresh
     if out.get('failures'):
         rdir = os.environ.get('PYVC_REPLAY_DIR') or 'replay'
         path = os.path.join(rdir, res.pid, 'bounded-%s.json' % spec.split(':')[-1])
